@@ -129,8 +129,11 @@ def filters(ctx: Ctx, rule="R-C11-FILTER") -> None:
               f"in-memory topic filter is `{unparse(tests[0].ast) if tests else '?'}`", instance="in-memory filter operand")
     # ---------- redis
     f = ctx.func(f"{C.REDIS_CONS}.__get_message_name")
+    fetch = ctx.func(f"{C.REDIS_CONS}.__fetch_message_name")
+    fetch_params = [p.arg for p in fetch.params()]
+    pfx = fetch_params[2]  # the prefixes parameter of the fetch (2nd after self), whatever it is called
     fm0 = [c for c in ast.walk(f.node) if isinstance(c, ast.Call) and (dotted(c.func) or "").endswith("__fetch_message_name")]
-    nt = [C.inline_locals(f, C.arg(fm0[0], 1, "startswith_topics"))] if len(fm0) == 1 and C.arg(fm0[0], 1, "startswith_topics") is not None else []
+    nt = [C.inline_locals(f, C.arg(fm0[0], 1, pfx))] if len(fm0) == 1 and C.arg(fm0[0], 1, pfx) is not None else []
     ok = False
     if len(nt) == 1 and isinstance(nt[0], ast.Call) and dotted(nt[0].func) == "tuple" and nt[0].args and isinstance(nt[0].args[0], (ast.GeneratorExp, ast.ListComp)):
         ge = nt[0].args[0]
@@ -144,7 +147,7 @@ def filters(ctx: Ctx, rule="R-C11-FILTER") -> None:
               f"redis __get_message_name builds the prefixes as {unparse(nt[0]) if nt else '?'}: without the ':' terminator a worker with actor 'send' also takes 'send_digest:<id>' "
               "messages it has no actor for", instance="redis prefix terminator")
     fm = [c for c in ast.walk(f.node) if isinstance(c, ast.Call) and (dotted(c.func) or "").endswith("__fetch_message_name")]
-    ok = len(fm) == 1 and C.arg(fm[0], 1, "startswith_topics") is not None and dotted(C.arg(fm[0], 0, "full_queue_name")) == [p.arg for p in f.params()][1]
+    ok = len(fm) == 1 and C.arg(fm[0], 1, pfx) is not None and dotted(C.arg(fm[0], 0, fetch_params[1])) == [p.arg for p in f.params()][1]
     ctx.check(ok, rule, f, "redis: fetch filtered by those prefixes", "__fetch_message_name(full_queue_name, new_topics, ...)", "redis __get_message_name does not pass the prefixes to the fetch", instance="redis prefixes used")
     callers = [ctx.func(f"{C.REDIS_CONS}.{n}") for n in ("__get_message_normal", "__get_message_delayed", "__get_message_dead")]
     for cf in callers:
@@ -156,7 +159,16 @@ def filters(ctx: Ctx, rule="R-C11-FILTER") -> None:
     g = ctx.cfg(f)
     rets = [n for n in g.nodes if n.kind == "return" and not C.is_const(n.ast.value, None)]
     tests = [t for t in g.nodes if t.kind == "test" and "startswith" in t.label]
-    ok = len(tests) == 1 and unparse(tests[0].ast) == "not startswith_topics or str_name.startswith(startswith_topics)" and \
+    def filter_test(t):
+        """`not <prefixes> or <name>.startswith(<prefixes>)` (or its De Morgan twin handled by the evaluator): no filter, or the name starts with a prefix"""
+        e = t.ast
+        if not (isinstance(e, ast.BoolOp) and isinstance(e.op, ast.Or) and len(e.values) == 2):
+            return False
+        a, b = e.values
+        return isinstance(a, ast.UnaryOp) and isinstance(a.op, ast.Not) and dotted(a.operand) == pfx and isinstance(b, ast.Call) and isinstance(b.func, ast.Attribute) \
+            and b.func.attr == "startswith" and isinstance(b.func.value, ast.Name) and len(b.args) == 1 and dotted(b.args[0]) == pfx
+
+    ok = len(tests) == 1 and filter_test(tests[0]) and \
         all(flow.must_pass(g, g.entry.id, [r_.id], [tests[0].id], flow.NORMAL_KINDS) for r_ in rets) and bool(rets)
     ctx.check(ok, rule, f, "redis: a name is returned only if it starts with one of the prefixes (or no filter)", "filter before the take",
               f"redis __fetch_message_name returns names under the test {[t.label for t in tests]}", instance="redis filter test")
